@@ -5,6 +5,7 @@ package dwt
 
 import (
 	"fmt"
+	"strings"
 
 	"github.com/cocosip/go-dicom-codecs/jpeg2000/wavelet"
 	. "verif/harness/vhlib"
@@ -154,6 +155,17 @@ func dwt1D(c *Ctx) {
 			cases = append(cases, cs{x, true, "dwt1d.len.1-40"}, cs{clone(x), false, "dwt1d.len.1-40"})
 		}
 	}
+	// the special-cased widths 1, 2, 3 (width 1 odd parity: *2 then truncating /2), many values
+	for i := 0; i < c.N(240, 2400); i++ {
+		n := 1 + i%3
+		x := fill(rng, n, 1<<20, i%4)
+		if i%5 == 0 {
+			for j := range x {
+				x[j] = int32(rng.Range(-9, 9))
+			}
+		}
+		cases = append(cases, cs{x, i%2 == 0, "dwt1d.len.1-3"})
+	}
 	// random lengths
 	maxLen := c.N(257, 1025)
 	for i := 0; i < c.N(300, 3000); i++ {
@@ -171,7 +183,7 @@ func dwt1D(c *Ctx) {
 	ParallelFor(len(cases), c.Work, func(i int) {
 		run1D(c, cases[i].x, cases[i].even, cases[i].dist, i == 7)
 	})
-	// all signals of length <= L over {-2..2}
+	// all signals of length <= L over {-2..2}; the model is asked in batches of 125 signals
 	L := c.N(6, 8)
 	for n := 1; n <= L; n++ {
 		total := 1
@@ -179,16 +191,69 @@ func dwt1D(c *Ctx) {
 			total *= 5
 		}
 		nn := n
-		ParallelFor(total, c.Work, func(i int) {
-			x := make([]int32, nn)
-			v := i
-			for k := 0; k < nn; k++ {
-				x[k] = int32(v%5 - 2)
-				v /= 5
+		const batch = 125
+		ParallelFor((total+batch-1)/batch, c.Work, func(bi int) {
+			var xs [][]int32
+			for i := bi * batch; i < (bi+1)*batch && i < total; i++ {
+				x := make([]int32, nn)
+				v := i
+				for k := 0; k < nn; k++ {
+					x[k] = int32(v%5 - 2)
+					v /= 5
+				}
+				xs = append(xs, x)
 			}
-			run1D(c, x, true, "dwt1d.exhaustive", false)
-			run1D(c, clone(x), false, "dwt1d.exhaustive", false)
+			run1DBatch(c, xs, true, "dwt1d.exhaustive")
+			run1DBatch(c, xs, false, "dwt1d.exhaustive")
 		})
+	}
+}
+
+// run1DBatch does what run1D does for several (non-empty) signals with one model request.
+func run1DBatch(c *Ctx, xs [][]int32, even bool, dist string) {
+	strs := make([]string, len(xs))
+	for i, x := range xs {
+		strs[i] = Ints32(x)
+	}
+	var rep []string
+	if c.HasModel() {
+		rep = strings.Split(c.M.Call("dwt_1d_batch", b01(even), strings.Join(strs, ";")), ";")
+	}
+	part := func(i, k int) string {
+		if i >= len(rep) {
+			return "!short-reply"
+		}
+		p := strings.Split(rep[i], "/")
+		if k >= len(p) {
+			return "!" + rep[i]
+		}
+		return p[k]
+	}
+	for i, x := range xs {
+		sig := fmt.Sprintf("dwt:1d:even=%d:len=%d", i01(even), len(x))
+		c.R.Case("1d:"+b01(even)+":"+strs[i], nonzero(x), dist, fmt.Sprintf("dwt1d.even.%d", i01(even)))
+		in := map[string]interface{}{"even": even, "x": x}
+		f := clone(x)
+		if p, msg := Safely(func() { wavelet.Forward53_1DWithParity(f, even) }); p {
+			c.R.Fail("oracle", "dwt_roundtrip_1d", sig+":fwd-panic", "Forward53_1DWithParity panics: "+msg, in)
+			continue
+		}
+		c.CorrEq("dwt_fwd1d", sig+":fwd", part(i, 0), Ints32(f), in)
+		g := clone(f)
+		if p, msg := Safely(func() { wavelet.Inverse53_1DWithParity(g, even) }); p {
+			c.R.Fail("oracle", "dwt_roundtrip_1d", sig+":inv-panic", "Inverse53_1DWithParity panics: "+msg, in)
+			continue
+		}
+		// the model inverts its own forward image; that is the same input when the line above agreed
+		c.CorrEq("dwt_inv1d", sig+":inv", part(i, 1), Ints32(g), map[string]interface{}{"even": even, "coeffs": f})
+		c.R.Oracle("dwt_roundtrip_1d")
+		if k := eq32(g, x); k >= 0 {
+			c.R.Fail("oracle", "dwt_roundtrip_1d", sig, fmt.Sprintf("inverse of forward differs at index %d", k), in)
+		}
+		a := clone(x)
+		if p, _ := Safely(func() { wavelet.Inverse53_1DWithParity(a, even) }); !p {
+			c.CorrEq("dwt_inv1d_arbitrary", sig+":inv-arb", part(i, 2), Ints32(a), map[string]interface{}{"even": even, "coeffs": x})
+		}
 	}
 }
 
